@@ -174,7 +174,7 @@ def template(tid):
     return f
 
 
-TEMPLATES = ['T1', 'T2', 'T3', 'T4', 'T5']
+TEMPLATES = ['T1', 'T2', 'T3', 'T4', 'T5', 'T7']
 
 
 # ---------------------------------------------------------------------------
@@ -246,6 +246,9 @@ def call(objs, st, tmp):
         return f.renameVariable(a['old'], a['new'])
     if act == 'renamedim':
         return f.renameDimension(a['old'], a['new'])
+    if act == 'renamedims':
+        return f.renameDimensions(**{p['old']: p['new']
+                                     for p in a['pairs']})
     if act == 'rmsingle':
         return f.removeSingleton(dimkey=a['d'] if a['h'] else None)
     if act == 'insertdim':
@@ -415,8 +418,8 @@ def _gen_step(rnd, sh, src, shadows, focus=None, strict=False):
     """One random in-domain-ish step on object `src` (1-based)."""
     dims = list(sh.dims)
     acts = ['copy', 'slice', 'apply', 'stack', 'subset', 'renamevar',
-            'renamedim', 'rmsingle', 'insertdim', 'reorder', 'mask', 'arith',
-            'eval']
+            'renamedim', 'renamedims', 'rmsingle', 'insertdim', 'reorder',
+            'mask', 'arith', 'eval']
     act = focus if focus and (strict or rnd.random() < 0.7) \
         else rnd.choice(acts)
     st = {'act': act, 'src': src, 'others': [], 'args': {}}
@@ -479,6 +482,9 @@ def _gen_step(rnd, sh, src, shadows, focus=None, strict=False):
     elif act == 'renamedim':
         a['old'] = rnd.choice(dims)
         a['new'] = a['old'] + 'r'
+    elif act == 'renamedims':
+        ds = rnd.sample(dims, rnd.randint(2, min(3, len(dims))))
+        a['pairs'] = [{'old': d, 'new': d + 'q'} for d in ds]
     elif act == 'rmsingle':
         a['h'] = rnd.random() < 0.5
         a['d'] = rnd.choice(dims)
